@@ -259,6 +259,11 @@ def correspondence_step(rep, cases, what):
             rep.violation("oracle", "the walk panics (%s) where the model of the committed code yields items: no error item is produced and nothing after that point is delivered" % c.head[:80],
                           c.describe(), impl=c.head[:200], model=(c.mf.get("items", c.mhead) or "")[:400])
             continue
+        if "rootnone" in c.f:
+            # an error for the root of the walk names the root, also when the root is the empty path (`Some("")`)
+            rep.violation("oracle", "the error item for the root of the walk names no path at all (%s item(s) at depth 0 with path() = None)" % c.f["rootnone"],
+                          c.describe(), impl=c.impl[:300])
+            continue
         if not corresponds(c):
             rep.stats["correspondence-broken"] += 1
             rep.violation("correspondence", "walk: ordered items and filter logs of the real walk vs the walk model (%s)" % what, c.describe(),
